@@ -324,7 +324,7 @@ BATTERIES = {
  'C02': [dict(sign=[1, 1, 1, 1, 1, 1]), dict(sign=[-1, 1, -1, -1, 1, -1], off=[0.1, -0.2, 0.3, 0.0, 0.25, -0.4])],
  'C03': [dict(params=[0.15, -0.11, 0.05, 0.55, 0.61, 0.66, 0.12], off=[0.1, -0.2, 0.3, 0.0, 0.25, -0.4], sign=[-1, 1, -1, -1, 1, -1], joints=[0.3, 14.4, -0.5, 0.6, -27.7, -0.8])],
  'C04': [dict(sign=[1, 1, 1, 1, 1, 1], dof=6, search='true')],
- 'C05': [dict(sign=[1, 1, 1, 1, 1, 1], search='true'), dict(sign=[1, 1, 1, 1, -1, 1], off=[0.0, 0.0, 0.0, 0.0, 0.4, 0.0], search='true')],
+ 'C05': [dict(sign=[1, 1, 1, 1, 1, 1], search='true'), dict(sign=[1, 1, 1, 1, -1, 1], off=[0.0, 0.0, 0.0, 0.0, 0.4, 0.0], search='true'), dict(sign=[1, 1, 1, -1, 1, 1], search='true'), dict(sign=[-1, 1, 1, -1, 1, -1], search='true')],
  'C06': [dict(sign=[1, 1, 1, 1, 1, 1], dof=5, search='true'), dict(sign=[1, 1, 1, 1, 1, 1], dof=6, search='true')],
  'C07': [dict(**{'from': [3.0, -1.0, 0.0, 9.42477796076938, -0.5, 2.0], 'to': [1.0, 1.0, 0.0, -1.5707963267948966, 0.5, 8.5], 'x': [3.5, 0.5, 7.0, 3.9, 12.0, -4.0]}, ctor='new')],
  'C08': [dict(sign=[1, 1, 1, 1, 1, 1], dof=6, search='true'), dict(sign=[1, 1, 1, 1, 1, 1], dof=5, search='true')],
@@ -335,7 +335,7 @@ BATTERIES = {
  'C16': [dict(driven=d, coupled=c, scaling=sc, method=m) for (d, c, sc) in ((1, 2, 0.7), (2, 1, -0.5), (0, 5, 1.5)) for m in ('forward', 'inverse', 'inverse_continuing_5dof')],
  'C17': [dict(clause='main', eulerB=[0.3, -0.5, 0.7], eulerM=[-1.1, 0.4, 2.0], shift=[0.5, -0.25, 3.0], p1=[10.0, -4.0, 2.0], l=0.8, u=0.3, w=0.6), dict(clause='mismatch_search'), dict(clause='forward_transformed')],
  'C18': [dict(**{'from': [3.0, 5.0, -1.0, -2.0, 6.0, 0.5], 'to': [1.0, -5.0, -2.0, 2.0, 0.2, 0.5]})],
- 'C19': [dict()],
+ 'C19': [dict()], 'C20': [dict(seed=0, n=150)],
 }
 
 def run_battery(ck):
